@@ -134,9 +134,12 @@ structure LineFeature (R : Type) where
   /-- false when the `GWB_VERIF` hook disabled the culling shortcuts (infinite box and length) -/
   cull : Bool := true
 
-/-- std::max over all thickness entries, starting from 0 -/
+/-- std::max over all thickness entries, starting from 0; for slabs also over the negated top truncations (a negative truncation extends the
+slab above its surface; upstream 'fix: slab culling bounds ignored a negative top truncation') — the fault has no truncation and no such terms -/
 def LineFeature.maxThickness (f : LineFeature R) : R :=
-  f.sections.foldl (fun m sec => sec.foldl (fun m s => Scalar.max (Scalar.max m s.thickness.x) s.thickness.y) m) 0
+  f.sections.foldl (fun m sec => sec.foldl (fun m s =>
+    let m := Scalar.max (Scalar.max m s.thickness.x) s.thickness.y
+    if f.isFault then m else Scalar.max (Scalar.max m (-s.topTruncation.x)) (-s.topTruncation.y)) m) 0
 
 def sectionLength (sec : List (Segment R)) : R := sec.foldl (fun l s => l + s.length) 0
 
